@@ -10,6 +10,7 @@ from vf.tlsserver import feed, make_tls
 MAXFILE = 100 * 1024 * 1024
 PUMP_MAX = pick(300_000, 2 * 1024 * 1024)
 HEADER = b"20 text/gemini\r\n"
+WMAX = pick(1, 3)
 
 
 def _resp(n, x, kind):
@@ -55,6 +56,26 @@ def tls_pump(n: int, x: int, kind: int) -> bool:
     post: _
     """
     resp, want = _resp(n, x, kind)
+    outer, tcp, loop, conn, made = make_tls(lambda r: resp)
+    feed(outer, tcp, [("hs",)])
+    feed(outer, tcp, [("app", b"gemini://h/\r\n")])
+    loop.run_ready()
+    plain_, close_seen, after, all_out = conn.delivered(tcp)
+    return V(tcp.closed >= 1 and after == 0 and close_seen and _same(plain_, want))
+
+
+BIG = [13 * 1024 * 1024 + 1, 24 * 1024 * 1024 + 5, 64 * 1024 * 1024, MAXFILE]
+
+
+def tls_pump_large(w: int, kind: int) -> bool:
+    """
+    pre: 0 <= w <= WMAX and 0 <= kind <= 1
+    post: _
+    """
+    # very large bodies at concrete sizes (the pump loops once per 8192 bytes, so a symbolic length of this
+    # magnitude would cost one solver query per iteration): a discrete dimension, chosen by symbolic index
+    total = BIG[w]
+    resp, want = _resp(total, 7 if kind == 1 else 0, kind)
     outer, tcp, loop, conn, made = make_tls(lambda r: resp)
     feed(outer, tcp, [("hs",)])
     feed(outer, tcp, [("app", b"gemini://h/\r\n")])
@@ -122,6 +143,10 @@ OBLIGATIONS = [
        symbolic="bytes body of n bytes or text body of n characters with x 2-byte characters, n in 0..%d" % PUMP_MAX,
        functions=FN, stubs=["StubTLSConn", "FakeTransport", "SymBuf/FillStr", "MiniLoop"],
        outside=["body lengths above %d on the PyOpenSSL pump" % PUMP_MAX]),
+    Ob("tls_pump_large", tls_pump_large, quick=600, thorough=2400,
+       symbolic="body of 13 MiB+1 or 24 MiB+5 bytes (quick), additionally 64 MiB and max_file_size = 100 MiB (thorough), bytes or text with 7 two-byte characters; by symbolic index", note="discrete: concrete sizes",
+       functions=FN, stubs=["StubTLSConn", "FakeTransport", "SymBuf", "MiniLoop"],
+       outside=["other sizes above the tls_pump bound"]),
     Ob("both", both, quick=200, thorough=600,
        symbolic="n in 0..40000, x in 0..n: plaintext reconstructed from the pump == bytes written on the plain path",
        functions=FN, stubs=["StubTLSConn", "FakeTransport", "SymBuf/FillStr"]),
